@@ -232,9 +232,10 @@ def gen_spec(r, name, rich=True, nfree=None):
             "{C_prefix}w_{C_name_scope}{underscore_name}{function_suffix}{template_suffix}",
             "{C_prefix}{C_name_scope}{underscore_name}_c{function_suffix}{template_suffix}"])
     ncls = r.choice([0, 1, 1, 2]) if rich else 1
-    spec.classes = ["K%d" % i for i in range(ncls)]
+    allcls = ["K%d" % i for i in range(ncls)]
     funcs = []
-    for c in spec.classes:
+    for ci, c in enumerate(allcls):
+        spec.classes = allcls[:ci + 1]   # a class may mention itself and classes declared before it
         two = r.random() < 0.5
         explicit = r.random() < 0.5
         if two:
@@ -249,6 +250,7 @@ def gen_spec(r, name, rich=True, nfree=None):
             ps = [gen_param(r, spec, i) for i in range(r.randrange(0, 4))]
             static = r.random() < 0.25
             funcs.append(Func("m%d" % j, ps, gen_ret(r, spec), cls=c, const=(not static and r.random() < 0.4), static=static))
+    spec.classes = allcls
     nfree = r.randrange(2, 7) if nfree is None else nfree
     for j in range(nfree):
         ps = [gen_param(r, spec, i) for i in range(r.randrange(0, 5))]
